@@ -373,7 +373,7 @@ Proof.
   induction l as [|x l IH]; simpl; [auto|].
   intro H. apply andb_true_iff in H as [Hx Hl]. destruct (IH Hl) as [I1 [I2 I3]]. rewrite I1, I2, I3.
   destruct x as [| |ph r st v| |]; try discriminate; try (repeat split; reflexivity).
-  destruct ph; try discriminate. destruct r; try discriminate. repeat split; reflexivity.
+  destruct ph; try discriminate. destruct r; try discriminate; repeat split; reflexivity.
 Qed.
 
 (** Signing. *)
